@@ -193,6 +193,18 @@ def check_cv(ctx, e, sz, f, g, info):
     want = float((cv1[kf].values * cv2[kf].values).sum() + (cv1[kg].values * cv2[kg].values).sum())
     if abs(cv1.dot(cv2) - want) > 1e-9 * max(1.0, abs(want)): bad.append("dot = %r, expected %r" % (cv1.dot(cv2), want))
     if set(s.keys()) != {kf, kg}: bad.append("keys changed")
+    # a vector whose entries were rebound after construction (v[cl] = v[cl] + g) must behave like its current contents
+    cv3 = CliqueVector({kf: f.copy(), kg: g.copy()})
+    cv3[kf] = cv3[kf] + mk(e["f"], sz, 50.0)
+    cur = {kf: cv3[kf].values.copy(), kg: cv3[kg].values.copy()}
+    t1, t2, t3 = 2.0 * cv3, cv3 * 2.0, cv2 - cv3
+    for k in (kf, kg):
+        if not np.array_equal(t1[k].values, 2.0 * cur[k]) or not np.array_equal(t2[k].values, 2.0 * cur[k]):
+            bad.append("scalar * vector ignores an entry rebound after construction (%s)" % (k,))
+        if not np.array_equal(t3[k].values, cv2[k].values - cur[k]):
+            bad.append("vector - vector ignores an entry rebound after construction (%s)" % (k,))
+    if abs(cv3.dot(cv2) - float((cur[kf] * cv2[kf].values).sum() + (cur[kg] * cv2[kg].values).sum())) > 1e-9 * max(1.0, abs(want)):
+        bad.append("dot ignores an entry rebound after construction")
     # combine: absorbed into the merged clique by name, each source exactly once
     out = tuple(e["out"])
     base = CliqueVector.zeros(Domain(list(out), [sz[a] for a in out]), [out])
